@@ -284,11 +284,18 @@ def chain_source(repo: Repo) -> RuleRun:
         fn = repo.func(qn)
         params = fn.params
         r.require("source" in params and "start_face" in params, f"{qn}: (source, ..., start_face) parameters expected")
-        ifs = [n for n in walk_shallow(fn.node) if isinstance(n, ast.If) and isinstance(n.test, ast.Name) and n.test.id == "start_face"]
+        def _polarity(t):
+            neg = False
+            while isinstance(t, ast.UnaryOp) and isinstance(t.op, ast.Not):
+                t, neg = t.operand, not neg
+            return (not neg) if isinstance(t, ast.Name) and t.id == "start_face" else None
+
+        ifs = [n for n in walk_shallow(fn.node) if isinstance(n, ast.If) and _polarity(n.test) is not None]
         r.require(len(ifs) == 1 and ifs[0].orelse, f"{qn}: 'if start_face: ... else: ...' not found")
         br = ifs[0]
-        refs_t = set().union(*[_sketch_refs(s, "source") for s in br.body])
-        refs_f = set().union(*[_sketch_refs(s, "source") for s in br.orelse])
+        br_true, br_false = (br.body, br.orelse) if _polarity(br.test) else (br.orelse, br.body)
+        refs_t = set().union(*[_sketch_refs(s, "source") for s in br_true])
+        refs_f = set().union(*[_sketch_refs(s, "source") for s in br_false])
         r.check(refs_t == {"sketch_1"} and refs_f == {"sketch_2"}, fn, "start_face -> sketch_1, else sketch_2", f"{fn.qualname}: the start_face branch uses {sorted(refs_t)} and the other branch {sorted(refs_f)}; centre, radius point and normal must all come from sketch_1 resp. sketch_2", br, key="branch-sketch")
         # outside the branch nothing may reach into source.sketch_x directly for geometry
         outside = set()
@@ -300,8 +307,8 @@ def chain_source(repo: Repo) -> RuleRun:
                     outside.add(ast.unparse(n))
         r.check(not outside, fn, "geometry read through the selected sketch only", f"{fn.qualname} reads {sorted(outside)} outside the start_face selection: mixes the two end sketches", fn.node, key="outside-refs")
         if "length" in params:
-            neg_t = any(isinstance(s, ast.Assign) and ast.unparse(s) == "length = -length" for s in br.body)
-            neg_f = any(isinstance(s, ast.Assign) and "-length" in ast.unparse(s) for s in br.orelse)
+            neg_t = any(isinstance(s, ast.Assign) and ast.unparse(s) == "length = -length" for s in br_true)
+            neg_f = any(isinstance(s, ast.Assign) and "-length" in ast.unparse(s) for s in br_false)
             r.check(neg_t and not neg_f, fn, "length negated only when chaining from the start face", f"{fn.qualname}: length negated in start branch={neg_t}, in end branch={neg_f}", br, key="negate")
             # abstract evaluation: a negative length is rejected before the source is even looked at
             rejected = True
@@ -316,8 +323,8 @@ def chain_source(repo: Repo) -> RuleRun:
                     rejected = False  # the guard let the negative length through to the geometry
             r.check(rejected, fn, "negative length rejected before use (either face)", f"{fn.qualname} does not reject a negative length for start_face=True and start_face=False alike", fn.node, key="negative-length")
         if qn.endswith("Hemisphere.chain"):
-            neg_t = any("-source.sketch_1.normal" in ast.unparse(s).replace(" ", "") or "normal=-" in ast.unparse(s).replace(" ", "") for s in br.body)
-            neg_f = any("=-" in ast.unparse(s).replace(" ", "") for s in br.orelse)
+            neg_t = any("-source.sketch_1.normal" in ast.unparse(s).replace(" ", "") or "normal=-" in ast.unparse(s).replace(" ", "") for s in br_true)
+            neg_f = any("=-" in ast.unparse(s).replace(" ", "") for s in br_false)
             r.check(neg_t and not neg_f, fn, "normal flipped only on the start face", f"Hemisphere.chain: normal negated in start branch={neg_t}, in end branch={neg_f}", br, key="normal-flip")
     for qn in SAME_SOURCE:
         fn = repo.func(qn)
